@@ -5,46 +5,46 @@ package main
 // `Facts.notExtracted`: the theorems `*_facts_extracted` of the properties that rest on the fact then fail — a broken obligation of
 // those properties, and of no other.
 var fallbacks = map[string]string{
-	"separator": `def separator : List UInt8 := [47]`,
-	"separatorStr": `def separatorStr : String := "/"`,
-	"maxInt53": `def maxInt53 : Int := 9007199254740991`,
-	"minInt53": `def minInt53 : Int := -9007199254740991`,
-	"dlgTag": `def dlgTag : List UInt8 := [117, 99, 97, 110, 47, 100, 108, 103, 64, 49, 46, 48, 46, 48, 45, 114, 99, 46, 49]`,
-	"dlgTagStr": `def dlgTagStr : String := "ucan/dlg@1.0.0-rc.1"`,
-	"invTag": `def invTag : List UInt8 := [117, 99, 97, 110, 47, 105, 110, 118, 64, 49, 46, 48, 46, 48, 45, 114, 99, 46, 49]`,
-	"invTagStr": `def invTagStr : String := "ucan/inv@1.0.0-rc.1"`,
-	"parseWhitelist": `def parseWhitelist : List Nat := [231, 237, 4608, 4609, 4610, 4613]`,
-	"pubKeyTable": `def pubKeyTable : List Nat := [231, 236, 237, 4608, 4609, 4610, 4613]`,
-	"fromPubKeyCodes": `def fromPubKeyCodes : List Nat := [231, 237, 4608, 4609, 4610, 4613]`,
-	"kindEqual": `def kindEqual : List UInt8 := [61, 61]`,
-	"kindEqualStr": `def kindEqualStr : String := "=="`,
-	"kindGreaterThan": `def kindGreaterThan : List UInt8 := [62]`,
-	"kindGreaterThanStr": `def kindGreaterThanStr : String := ">"`,
-	"kindGreaterThanOrEqual": `def kindGreaterThanOrEqual : List UInt8 := [62, 61]`,
+	"separator":                 `def separator : List UInt8 := [47]`,
+	"separatorStr":              `def separatorStr : String := "/"`,
+	"maxInt53":                  `def maxInt53 : Int := 9007199254740991`,
+	"minInt53":                  `def minInt53 : Int := -9007199254740991`,
+	"dlgTag":                    `def dlgTag : List UInt8 := [117, 99, 97, 110, 47, 100, 108, 103, 64, 49, 46, 48, 46, 48, 45, 114, 99, 46, 49]`,
+	"dlgTagStr":                 `def dlgTagStr : String := "ucan/dlg@1.0.0-rc.1"`,
+	"invTag":                    `def invTag : List UInt8 := [117, 99, 97, 110, 47, 105, 110, 118, 64, 49, 46, 48, 46, 48, 45, 114, 99, 46, 49]`,
+	"invTagStr":                 `def invTagStr : String := "ucan/inv@1.0.0-rc.1"`,
+	"parseWhitelist":            `def parseWhitelist : List Nat := [231, 237, 4608, 4609, 4610, 4613]`,
+	"pubKeyTable":               `def pubKeyTable : List Nat := [231, 236, 237, 4608, 4609, 4610, 4613]`,
+	"fromPubKeyCodes":           `def fromPubKeyCodes : List Nat := [231, 237, 4608, 4609, 4610, 4613]`,
+	"kindEqual":                 `def kindEqual : List UInt8 := [61, 61]`,
+	"kindEqualStr":              `def kindEqualStr : String := "=="`,
+	"kindGreaterThan":           `def kindGreaterThan : List UInt8 := [62]`,
+	"kindGreaterThanStr":        `def kindGreaterThanStr : String := ">"`,
+	"kindGreaterThanOrEqual":    `def kindGreaterThanOrEqual : List UInt8 := [62, 61]`,
 	"kindGreaterThanOrEqualStr": `def kindGreaterThanOrEqualStr : String := ">="`,
-	"kindLessThan": `def kindLessThan : List UInt8 := [60]`,
-	"kindLessThanStr": `def kindLessThanStr : String := "<"`,
-	"kindLessThanOrEqual": `def kindLessThanOrEqual : List UInt8 := [60, 61]`,
-	"kindLessThanOrEqualStr": `def kindLessThanOrEqualStr : String := "<="`,
-	"kindNot": `def kindNot : List UInt8 := [110, 111, 116]`,
-	"kindNotStr": `def kindNotStr : String := "not"`,
-	"kindAnd": `def kindAnd : List UInt8 := [97, 110, 100]`,
-	"kindAndStr": `def kindAndStr : String := "and"`,
-	"kindOr": `def kindOr : List UInt8 := [111, 114]`,
-	"kindOrStr": `def kindOrStr : String := "or"`,
-	"kindLike": `def kindLike : List UInt8 := [108, 105, 107, 101]`,
-	"kindLikeStr": `def kindLikeStr : String := "like"`,
-	"kindAll": `def kindAll : List UInt8 := [97, 108, 108]`,
-	"kindAllStr": `def kindAllStr : String := "all"`,
-	"kindAny": `def kindAny : List UInt8 := [97, 110, 121]`,
-	"kindAnyStr": `def kindAnyStr : String := "any"`,
-	"dlgSchema": `def dlgSchema : List (String × String × Bool × Bool) := [("iss", "DID", false, false), ("aud", "DID", false, false), ("sub", "DID", true, false), ("cmd", "String", false, false), ("pol", "Any", false, false), ("nonce", "Bytes", false, false), ("meta", "{String:Any}", true, false), ("nbf", "Int", true, false), ("exp", "Int", false, true)]`,
-	"dlgStructFields": `def dlgStructFields : List String := ["iss", "aud", "sub", "cmd", "pol", "nonce", "meta", "nbf", "exp"]`,
-	"dlgNonceMin": `def dlgNonceMin : Nat := 12`,
-	"invSchema": `def invSchema : List (String × String × Bool × Bool) := [("iss", "DID", false, false), ("sub", "DID", false, false), ("aud", "DID", true, false), ("cmd", "String", false, false), ("args", "{String:Any}", false, false), ("prf", "[Link]", false, false), ("meta", "{String:Any}", true, false), ("nonce", "Bytes", true, false), ("exp", "Int", false, true), ("iat", "Int", true, false), ("cause", "Link", true, false)]`,
-	"invStructFields": `def invStructFields : List String := ["iss", "sub", "aud", "cmd", "args", "prf", "meta", "nonce", "exp", "iat", "cause"]`,
-	"invNonceMin": `def invNonceMin : Nat := 12`,
-	"varsigTable": `def varsigTable : List (String × List UInt8) := [("RSA", [52, 133, 36, 18, 128, 2, 113]), ("Ed25519", [52, 237, 1, 113]), ("Secp256k1", [52, 231, 1, 18, 113]), ("ECDSA", [52, 128, 164, 192, 6, 18, 113])]`,
+	"kindLessThan":              `def kindLessThan : List UInt8 := [60]`,
+	"kindLessThanStr":           `def kindLessThanStr : String := "<"`,
+	"kindLessThanOrEqual":       `def kindLessThanOrEqual : List UInt8 := [60, 61]`,
+	"kindLessThanOrEqualStr":    `def kindLessThanOrEqualStr : String := "<="`,
+	"kindNot":                   `def kindNot : List UInt8 := [110, 111, 116]`,
+	"kindNotStr":                `def kindNotStr : String := "not"`,
+	"kindAnd":                   `def kindAnd : List UInt8 := [97, 110, 100]`,
+	"kindAndStr":                `def kindAndStr : String := "and"`,
+	"kindOr":                    `def kindOr : List UInt8 := [111, 114]`,
+	"kindOrStr":                 `def kindOrStr : String := "or"`,
+	"kindLike":                  `def kindLike : List UInt8 := [108, 105, 107, 101]`,
+	"kindLikeStr":               `def kindLikeStr : String := "like"`,
+	"kindAll":                   `def kindAll : List UInt8 := [97, 108, 108]`,
+	"kindAllStr":                `def kindAllStr : String := "all"`,
+	"kindAny":                   `def kindAny : List UInt8 := [97, 110, 121]`,
+	"kindAnyStr":                `def kindAnyStr : String := "any"`,
+	"dlgSchema":                 `def dlgSchema : List (String × String × Bool × Bool) := [("iss", "DID", false, false), ("aud", "DID", false, false), ("sub", "DID", true, false), ("cmd", "String", false, false), ("pol", "Any", false, false), ("nonce", "Bytes", false, false), ("meta", "{String:Any}", true, false), ("nbf", "Int", true, false), ("exp", "Int", false, true)]`,
+	"dlgStructFields":           `def dlgStructFields : List String := ["iss", "aud", "sub", "cmd", "pol", "nonce", "meta", "nbf", "exp"]`,
+	"dlgNonceMin":               `def dlgNonceMin : Nat := 12`,
+	"invSchema":                 `def invSchema : List (String × String × Bool × Bool) := [("iss", "DID", false, false), ("sub", "DID", false, false), ("aud", "DID", true, false), ("cmd", "String", false, false), ("args", "{String:Any}", false, false), ("prf", "[Link]", false, false), ("meta", "{String:Any}", true, false), ("nonce", "Bytes", true, false), ("exp", "Int", false, true), ("iat", "Int", true, false), ("cause", "Link", true, false)]`,
+	"invStructFields":           `def invStructFields : List String := ["iss", "sub", "aud", "cmd", "args", "prf", "meta", "nonce", "exp", "iat", "cause"]`,
+	"invNonceMin":               `def invNonceMin : Nat := 12`,
+	"varsigTable":               `def varsigTable : List (String × List UInt8) := [("RSA", [52, 133, 36, 18, 128, 2, 113]), ("Ed25519", [52, 237, 1, 113]), ("Secp256k1", [52, 231, 1, 18, 113]), ("ECDSA", [52, 128, 164, 192, 6, 18, 113])]`,
 }
 
 // fallbackOrder keeps the output stable
